@@ -1,12 +1,87 @@
-(* C11 — reseating.  Property theorems only. *)
+(* C11 — reseating.  Property theorems only (each is an `exact` of a lemma of Proofs/ReseatProofs.v).
+   Domain: wf_unseated (first change at measure 0 beat 0, strictly increasing normalised positions, positive bpm,
+   one shared integer metronome 1..8).  Guards (Timing/ReseatDomain.v), stated on the beat distance d of each gap:
+     no_extend thr l    : neither frac (d/met) nor frac d lies in the extend window (0, thr]
+     reseat_guard thr l : weaker; the extend-by-bpm branch is allowed when >= 1 whole measure precedes the remainder,
+                          the extend-by-metronome branch is allowed in its REPLACE sub-branch (gap < 1 measure). *)
 From Coq Require Import ZArith QArith Qround Qabs List Bool.
-From RV Require Import Base.PyNum Timing.Snapper Timing.Snap Timing.TimingMap Timing.Integrate Timing.Reseat Timing.ReseatSpec.
+From RV Require Import Base.PyNum Timing.Snapper Timing.Snap Timing.TimingMap Timing.Integrate Timing.Reseat Timing.ReseatSpec
+  Timing.ReseatDomain Proofs.ReseatProofs.
 Import ListNotations.
 Open Scope Q_scope.
 
-(* placeholder non-vacuity example; theorems are added from Proofs/ReseatProofs.v *)
+(* 1. the loop never runs out of fuel 2*length+2 on the whole domain (every branch, including the faulty ones):
+      each original interval costs at most two passes *)
+Theorem C11_reseat_terminates : forall l, wf_unseated l = true -> reseat l <> RFuel.
+Proof. exact reseat_terminates. Qed.
+Theorem C11_reseat_terminates_thr : forall thr l, 0 <= thr -> thr <= 1 # 2 -> wf_unseated l = true -> reseat_with thr l <> RFuel.
+Proof. exact reseat_terminates_thr. Qed.
+Theorem C11_reseat_terminates_any_order : forall l, wf_unseated (sort_by bcs_lt l) = true -> reseat l <> RFuel.
+Proof. exact reseat_terminates_any_order. Qed.
+
+(* 2. no extend branch taken: the result exists and satisfies ReseatOK =
+      strong structural spec (seated; timeline refinement: all original times kept in order, bpm kept after whole gaps,
+      one extra point strictly inside exactly the non-whole gaps)  /\  the boolean oracle accepts it
+      /\  the clause-by-clause property statement  /\  elapsed time between originals unchanged  /\  times increase *)
+Theorem C11_reseat_correct_no_extend : forall l, wf_unseated l = true -> no_extend THRESHOLD l = true ->
+  exists r, reseat l = ROk r /\ ReseatOK l r.
+Proof. exact reseat_correct_no_extend. Qed.
+
+(* 5. the same under the weaker guard: measure-extend with >= 1 whole measure and metronome-extend REPLACE included *)
+Theorem C11_reseat_correct_guarded : forall l, wf_unseated l = true -> reseat_guard THRESHOLD l = true ->
+  exists r, reseat l = ROk r /\ ReseatOK l r.
+Proof. exact reseat_correct_guarded. Qed.
+Theorem C11_reseat_correct_thr : forall thr l, 0 <= thr -> wf_unseated l = true -> reseat_guard thr l = true ->
+  exists r, reseat_with thr l = ROk r /\ ReseatOK l r.
+Proof. exact reseat_correct_thr. Qed.
+Theorem C11_reseat_correct_any_order : forall l, let ls := sort_by bcs_lt l in
+  wf_unseated ls = true -> reseat_guard THRESHOLD ls = true -> exists r, reseat l = ROk r /\ ReseatOK ls r.
+Proof. exact reseat_correct_any_order. Qed.
+Theorem C11_no_extend_implies_guard : forall thr l, no_extend thr l = true -> reseat_guard thr l = true.
+Proof. exact no_extend_guard. Qed.
+
+(* 3. an already seated list needs no guard: same length, same times, same bpms *)
+Theorem C11_reseat_seated_fixpoint : forall l, wf_unseated l = true -> seated l = true ->
+  exists r, reseat l = ROk r /\ length r = length l /\
+    Forall2 (fun p q => fst p == fst q /\ bs_bpm (snd p) == bs_bpm (snd q)) (timeline 0 l) (timeline 0 r).
+Proof. exact reseat_seated_fixpoint. Qed.
+
+(* 4. the boolean oracle is sound for the property statement, for ANY pair of lists (so a `true` on an implementation
+      output means what it says); and it accepts whatever meets the strong spec *)
+Theorem C11_reseat_specb_sound : forall l r, reseat_specb l r = true -> ReseatSpecP l r.
+Proof. exact reseat_specb_sound. Qed.
+Theorem C11_strong_spec_accepted : forall l r, wf_unseated l = true -> reseat_strong l r -> reseat_specb l r = true.
+Proof. exact strong_specb. Qed.
+
+(* the two known findings of the pinned code, as theorems about the model (inside wf_unseated, outside reseat_guard) *)
+Theorem C11_extend_metronome_insert_refuted :
+  wf_unseated w_metronome_insert = true /\ reseat_guard THRESHOLD w_metronome_insert = false /\
+  exists r, reseat w_metronome_insert = ROk r /\ ~ TimesKeptP w_metronome_insert r.
+Proof. exact reseat_extend_metronome_insert_refuted. Qed.
+Theorem C11_gap_below_threshold_refuted_exc :
+  wf_unseated w_gap_exc = true /\ reseat_guard THRESHOLD w_gap_exc = false /\ reseat w_gap_exc = RExc.
+Proof. exact reseat_gap_below_threshold_refuted_exc. Qed.
+Theorem C11_gap_below_threshold_refuted_unseated :
+  wf_unseated w_gap_unseated = true /\ reseat_guard THRESHOLD w_gap_unseated = false /\
+  exists r, reseat w_gap_unseated = ROk r /\ ~ SeatedP r.
+Proof. exact reseat_gap_below_threshold_refuted_unseated. Qed.
+
+(* ------------------------------------------------------------------ non-vacuity *)
+(* half-beat grid, mixed bpm: in the domain, no extend branch, result accepted by the oracle *)
 Example C11_example_half_beat :
-  let l := [mkBcs 120 4 (mkSnap 0 0 4); mkBcs 175 4 (mkSnap 1 (1#2) 4)] in
-  wf_unseated l = true /\
+  let l := [mkBcs 120 4 (mkSnap 0 0 4); mkBcs 175 4 (mkSnap 1 (1#2) 4); mkBcs 90 4 (mkSnap 3 1 4)] in
+  wf_unseated l = true /\ no_extend THRESHOLD l = true /\
+  match reseat l with ROk r => reseat_specb l r = true /\ length r = 5%nat | _ => False end.
+Proof. vm_compute. repeat split; reflexivity. Qed.
+(* a list inside reseat_guard but outside no_extend: extend-by-bpm REPLACE, extend-by-bpm INSERT, extend-by-metronome REPLACE *)
+Example C11_example_extend_branches :
+  let l := [mkBcs 120 4 (mkSnap 0 0 4); mkBcs 175 4 (mkSnap 1 (1#500) 4); mkBcs 90 4 (mkSnap 3 (3#500) 4);
+            mkBcs 200 4 (mkSnap 3 (2 + (3#500) + (1#2000)) 4)] in
+  wf_unseated l = true /\ reseat_guard THRESHOLD l = true /\ no_extend THRESHOLD l = false /\
   match reseat l with ROk r => reseat_specb l r = true | _ => False end.
+Proof. vm_compute. repeat split; reflexivity. Qed.
+(* a seated list *)
+Example C11_example_seated :
+  let l := [mkBcs 120 4 (mkSnap 0 0 4); mkBcs 175 4 (mkSnap 2 0 4)] in
+  wf_unseated l = true /\ seated l = true.
 Proof. vm_compute. split; reflexivity. Qed.
